@@ -1,11 +1,14 @@
 (* C11 -- inline expressions: statements only; proofs are in the MPSV.Inline files. *)
-Require Import List String ZArith NArith QArith Qcanon Lia.
+Require Import List Ascii String ZArith NArith QArith Qcanon Lia.
 Require Import MPSV.Inline.InlineModel MPSV.Inline.InlineDecl MPSV.Inline.InlineAlgebra
                MPSV.Inline.InlineParse MPSV.Inline.InlineParseMin MPSV.Inline.InlineSound MPSV.Inline.InlineFormal MPSV.Inline.InlineFormalInv
                MPSV.Inline.InlineGrammar MPSV.Inline.Gen.GrammarGen MPSV.Inline.InlineGrammarShape
                MPSV.Inline.InlineLR MPSV.Inline.Gen.AutomatonGen MPSV.Inline.InlineLRCheck
                MPSV.Inline.InlineFormalMul MPSV.Inline.InlineFormalCoeff MPSV.Inline.InlineLRSound MPSV.Inline.InlineLRComplete
-               MPSV.Inline.InlineLRAll.
+               MPSV.Inline.InlineLRAll
+               MPSV.Inline.LexModel MPSV.Inline.LexSpec MPSV.Inline.Gen.LexerGen MPSV.Inline.LexPipeline MPSV.Inline.LexPipelineProofs
+               MPSV.Inline.LexAgree MPSV.Inline.LexLiteral MPSV.Inline.LexLiteralScan.
+Require MPSV.PolFile.Chars MPSV.PolFile.DecRatModel.
 Import ListNotations.
 
 (* The reference semantics is ordinary algebra over the Gaussian rationals (a commutative ring
@@ -253,3 +256,135 @@ Example C11_yacc_example :
                         ("FLOATING_POINT", TNum 3 2 false); ("IMAGINARY_UNIT", TI); ("RIGHT_BRACKET", TRP)]%string
   = LAccept (Mul (Neg (Pow X 2)) (Add X (Num 3 2 true))).
 Proof. vm_compute. reflexivity. Qed.
+
+(* ==================================================================================================================
+   ROUND 6: the scanner is no longer modelled by hand.  The rules section of src/libmps/monomial/tokenizer.l is read
+   on every run into Gen/LexerGen.v (patterns as regular expressions over bytes, the token each action returns); a
+   generic executable flex model (Brzozowski derivatives, longest match, first rule wins, default rule) gives it its
+   meaning, and is proved to compute exactly the declarative semantics of flex. *)
+
+(* Derivative-based matching decides membership in the language of a regular expression. *)
+Theorem C11_regex_matcher_correct : forall r s, matchb r s = true <-> matches r s.
+Proof. intros r s. apply matchb_spec. Qed.
+Print Assumptions C11_regex_matcher_correct.
+Example C11_regex_example :   (* the FLOATING_POINT pattern: "12.5e-3" yes, "12.5e-" no, "12." yes *)
+  matchb rx_floating (list_ascii_of_string "12.5e-3") = true /\ matchb rx_floating (list_ascii_of_string "12.5e-") = false /\
+  matchb rx_floating (list_ascii_of_string "12.") = true /\ matchb rx_rational (list_ascii_of_string "3/4") = true /\
+  matchb rx_rational (list_ascii_of_string "3/") = false.
+Proof. vm_compute. repeat split. Qed.
+
+(* flex's rule selection, for ANY list of rules and ANY input: [lm] returns (i, n) exactly when n >= 1 is the length of
+   the longest prefix matched by any rule and i is the first rule among those matching that prefix; it returns None
+   exactly when no rule matches a non-empty prefix. *)
+Theorem C11_flex_longest_match_first_rule :
+  (forall rs s i n, lm rs s = Some (i, n) <->
+     ((1 <= n <= length s)%nat /\ (exists r, nth_error rs i = Some r /\ matches r (firstn n s)) /\
+      (forall j, (j < i)%nat -> ~ exists r, nth_error rs j = Some r /\ matches r (firstn n s)) /\
+      (forall j m, (n < m <= length s)%nat -> ~ exists r, nth_error rs j = Some r /\ matches r (firstn m s)))) /\
+  (forall rs s, lm rs s = None <-> forall j m, (1 <= m <= length s)%nat -> ~ exists r, nth_error rs j = Some r /\ matches r (firstn m s)).
+Proof. split; [exact lm_some_iff | exact lm_none_iff]. Qed.
+Print Assumptions C11_flex_longest_match_first_rule.
+Example C11_flex_choice_example :   (* "12" RATIONAL by the first-rule tie break, "12.5" FLOATING_POINT by the longest match, "12/x": the '/' is left *)
+  lm (map fst lexer_gen) (list_ascii_of_string "12+x") = Some (0, 2)%nat /\ lm (map fst lexer_gen) (list_ascii_of_string "12.5+x") = Some (1, 4)%nat /\
+  lm (map fst lexer_gen) (list_ascii_of_string "12/x") = Some (0, 2)%nat /\ lm (map fst lexer_gen) (list_ascii_of_string "1e5/3") = Some (1, 3)%nat /\
+  lm (map fst lexer_gen) (list_ascii_of_string "1e+x") = Some (0, 1)%nat /\ lm (map fst lexer_gen) [] = None.
+Proof. vm_compute. repeat split. Qed.
+
+(* The scanner loop computes exactly the token sequence flex's semantics prescribes (choose, run the action on the lexeme,
+   go on behind it); with flex's default rule it is total. *)
+Theorem C11_flex_scanner_loop :
+  (forall rules s out, tokenize rules s = Some out <-> flex_tokens rules s out) /\
+  (forall rules s, exists out, tokenize (with_default rules) s = Some out).
+Proof. split; [exact tokenize_iff | exact tokenize_total]. Qed.
+Print Assumptions C11_flex_scanner_loop.
+
+(* The rules read from tokenizer.l are the rules the proofs below are about (tokenizer.l with fixes/C11_newline.patch). *)
+Theorem C11_lexer_shape : lexer_gen = expected_lexer.
+Proof. exact lexer_shape. Qed.
+Print Assumptions C11_lexer_shape.
+
+(* THE HAND-WRITTEN SCANNER MODEL AGREES WITH THE GENERATED ONE ON EVERY STRING: the tokens (name and payload) that the
+   generated scanner -- flex semantics over the rules of tokenizer.l, default rule included, literal payloads computed from
+   the lexeme alone -- hands to the parser are those of InlineLR.ylex, and it rejects (a byte outside the token set, a zero
+   denominator) exactly when ylex does.  Proof: the derivative automaton of the generated rules is computed in the kernel
+   (11 states, every transition checked for all 256 bytes) and the hand-written scanner is shown to follow it.  Hence the
+   two pipelines are the same function and every theorem about [lex] / [ylex] / [run_yacc] above is a theorem about the
+   scanner flex generates from tokenizer.l. *)
+Theorem C11_generated_lexer_agrees :
+  (forall s, glex s = ylex s) /\ (forall s, run_gen automaton_gen s = run_yacc automaton_gen s).
+Proof. split; [exact glex_agrees | intro s; unfold run_gen, run_yacc; rewrite glex_agrees; reflexivity]. Qed.
+Print Assumptions C11_generated_lexer_agrees.
+Example C11_generated_lexer_example :
+  glex "2*X^3 +1e2i" = Some [("RATIONAL", TNum 2 1 true); ("TIMES", TTimes); ("MONOMIAL", TX); ("SUPERSCRIPT", TPow); ("RATIONAL", TNum 3 1 true);
+                             ("PLUS", TPlus); ("FLOATING_POINT", TNum 100 1 false); ("IMAGINARY_UNIT", TI)]%string /\
+  glex "1/0" = None /\ glex "x#" = None /\ raw_tokens_string "1e5/3" <> None.
+Proof. vm_compute. repeat split; discriminate. Qed.
+
+(* THE PROPERTY for the pipeline as generated, scanner included (rules of tokenizer.l under flex semantics -> bison's table ->
+   grammar actions on the formal-polynomial model -> stored coefficients), strings of any length.  What is still trusted:
+   that flex implements its documented semantics (longest match, first rule, default rule) and YY_INPUT feeds it the bytes of
+   the string; that the yacc skeleton behaves like InlineLR.lr_loop and bison's XML report describes the compiled tables;
+   the readers of tokenizer.l / yacc-parser.y / the XML report (outputs pinned by C11_lexer_shape, C11_grammar_shape,
+   C11_yacc_table_checked). *)
+Theorem C11_pipeline_generated_lexer :
+  (forall s cs, run_gen automaton_gen s = Some cs -> exists ys e, glex s = Some ys /\ d_sum (map snd ys) e /\ cs = stored (denote e)) /\
+  (forall s ys e, glex s = Some ys -> d_sum (map snd ys) e -> run_gen automaton_gen s = Some (stored (denote e))) /\
+  (forall s ys, glex s = Some ys -> ~ well_formed (map snd ys) -> run_gen automaton_gen s = None) /\
+  (forall s, glex s = None -> run_gen automaton_gen s = None).
+Proof. exact (conj run_gen_sound (conj run_gen_complete (conj run_gen_rejects_illformed run_gen_rejects_unlexable))). Qed.
+Print Assumptions C11_pipeline_generated_lexer.
+Example C11_pipeline_generated_example :
+  run_gen automaton_gen "-x^2*(Y+1.5i) - 3/4" = Some [Copp (CofQ 3 4); C0; Copp (Cmul Ci (CofQ 3 2)); Copp C1] /\
+  run_gen automaton_gen "x^1/2-3" = None /\ run_gen automaton_gen "x#" = None /\ run_gen automaton_gen "1/0+x" = None.
+Proof. vm_compute. repeat split. Qed.
+
+(* With the catch-all rule `.|\n` flex's default rule (ECHO to stdout) is unreachable: the scanner never writes to yyout. *)
+Theorem C11_scanner_never_echoes : forall s, echoed_with lexer_gen s = [].
+Proof.
+  intro s. rewrite lexer_shape. unfold echoed_with. destruct (tokenize (with_default expected_lexer) s) as [out|] eqn:E; [|reflexivity].
+  pose proof (expected_never_echoes s out E) as H. clear E. induction out as [|t out IH]; [reflexivity|].
+  simpl. destruct t; try (apply IH; intros t' Hin; apply (H t'); right; exact Hin).
+  exfalso. apply (H text). left. reflexivity.
+Qed.
+Print Assumptions C11_scanner_never_echoes.
+(* REFUTED for tokenizer.l as it is in /repo before fixes/C11_newline.patch (catch-all rule `.`, which does not match a newline):
+   a newline -- not a character of the language -- falls through to the default rule, is copied to stdout and skipped, and the
+   string is accepted.  The witness is replayed on the real code by the check (known finding illformed-accepted:stray-newline). *)
+Theorem C11_newline_rejected_refuted :
+  exists s, In "010"%char s /\ echoed_with unfixed_lexer s = ["010"%char] /\
+            glex_with unfixed_lexer s = Some [("MONOMIAL", TX); ("PLUS", TPlus); ("RATIONAL", TNum 1 1 true)]%string.
+Proof. exists ["x"; "010"; "+"; "1"]%char. vm_compute. repeat split. right; left; reflexivity. Qed.
+Print Assumptions C11_newline_rejected_refuted.
+
+(* NUMERIC LITERALS.  [monomial_coeff] is Monomial::Monomial (const char *, long) of formal-monomial.cpp as coded --
+   mps_utils_build_equivalent_rational_string (sign scan, truncation scan, copy loop with the "/10..0" denominator, leading-zero
+   stripping, exponent insertion), mpq_class::set_str (.., 10), canonicalize () -- in the character-level model written for C10
+   (PolFile/DecRatModel.v).  For every text the hand model reads as ONE literal (digits; digits '/' digits with a non-zero
+   denominator; digits ['.' digits*] [e|E [+|-] digits]) the payload (n, d) of the token is the value of the text -- the rational
+   N/D as written, resp. the decimal value (-1)^0 * int.frac * 10^exp of the literal ([text_value]) -- and the C conversion
+   stores exactly that rational. *)
+Theorem C11_literal_value : forall p n d b,
+  (exists c p', p = c :: p' /\ is_digit c = true) -> lex_number p = Some (TNum n d b, []) ->
+  monomial_coeff p = Some (Qred (Z.of_N n # d)) /\ text_value p (Qred (Z.of_N n # d)).
+Proof. exact literal_value. Qed.
+Print Assumptions C11_literal_value.
+Example C11_literal_examples :   (* decimal with exponent; leading zeros in a denominator are decimal, not octal; zero denominators refused *)
+  monomial_coeff (list_ascii_of_string "2.50E-2") = Some (1 # 40)%Q /\ monomial_coeff (list_ascii_of_string "3/010") = Some (3 # 10)%Q /\
+  monomial_coeff (list_ascii_of_string "1/0") = None /\ monomial_coeff (list_ascii_of_string "0007e2") = Some (700 # 1)%Q /\
+  lex_number (list_ascii_of_string "2.50E-2") = Some (TNum 250 10000 false, []).
+Proof. vm_compute. repeat split. Qed.
+
+(* ... and these are ALL the literals there are: every RATIONAL / FLOATING_POINT token that the scanner generated from tokenizer.l
+   hands to the parser (on any input) has a lexeme of that form, so its payload is the value of its text and what the grammar
+   action stores.  (A RATIONAL lexeme with a zero denominator never reaches the parser model: conv_token fails, as the action
+   of `real_number: RATIONAL` calls yyerror and YYABORTs; [C11_zero_denominator_test] is the equivalence of the two tests.) *)
+Theorem C11_scanner_literal_values : forall l rts, tokenize (with_default lexer_gen) l = Some rts ->
+  forall nm k text t, In (RTok nm k text) rts -> (nm = "RATIONAL" \/ nm = "FLOATING_POINT")%string ->
+  conv_token (RTok nm k text) = Some (Some (nm, t)) ->
+  exists n d b, t = TNum n d b /\ monomial_coeff text = Some (Qred (Z.of_N n # d)) /\ text_value text (Qred (Z.of_N n # d)).
+Proof. rewrite lexer_shape. exact scanner_literal_values. Qed.
+Print Assumptions C11_scanner_literal_values.
+Theorem C11_zero_denominator_test : forall d2, MPSV.PolFile.DecRatModel.all_digits d2 ->
+  (MPSV.PolFile.Chars.digits_val d2 = 0%N <-> forallb (fun c => Ascii.eqb c "0"%char) d2 = true).
+Proof. exact zero_denominator_iff. Qed.
+Print Assumptions C11_zero_denominator_test.
